@@ -590,7 +590,7 @@ func (c *Context) Respond(rw http.ResponseWriter, r *http.Request, produces []st
 			return
 		}
 		producers := c.api.ProducersFor(normalizeOffers(offers))
-		prod, ok := producers[format]
+		prod, ok := producers[normalizeOffer(format)]
 		if !ok {
 			panic(errors.New(http.StatusInternalServerError, cantFindProducer(format)))
 		}
@@ -607,7 +607,8 @@ func (c *Context) Respond(rw http.ResponseWriter, r *http.Request, produces []st
 		}
 
 		producers := route.Producers
-		prod, ok := producers[format]
+		// producers are keyed by the normalized media type, format may carry parameters (e.g. "; charset=utf-8")
+		prod, ok := producers[normalizeOffer(format)]
 		if !ok {
 			if !ok {
 				prods := c.api.ProducersFor(normalizeOffers([]string{c.api.DefaultProduces()}))
